@@ -284,6 +284,7 @@ func cmdRelock(args []string) {
 	if err != nil {
 		fatal(err)
 	}
+	var unlocked []string
 	keyset := map[string]bool{}
 	for _, ks := range pm {
 		for _, k := range ks {
@@ -343,6 +344,7 @@ func cmdRelock(args []string) {
 					lines = append(lines, fmt.Sprintf("%s %s %s", p, k, n))
 				} else {
 					fmt.Printf("-- not locked: %s %s %s (%d/%d) %v\n", p, k, n, a.Discharged, a.Total, a.FailStatus)
+					unlocked = append(unlocked, fmt.Sprintf("%s %s %s (%d of %d discharged; answers %v)", p, k, n, a.Discharged, a.Total, uniq(a.FailStatus)))
 					if strings.Contains(k, ":") {
 						for _, o := range a.Failed {
 							fmt.Printf("     %s\n", o.Descr)
@@ -351,6 +353,10 @@ func cmdRelock(args []string) {
 				}
 			}
 		}
+	}
+	sort.Strings(unlocked)
+	if len(fs.Args()) == 0 {
+		os.WriteFile(vd+"/obligations.unlocked", []byte("# property function obligation(aggregate): generated from the contracts but NOT claimed - undischarged when the lock was written.\n# Obligations of kind pre@/inv/var/safety/arith are assumed to hold by the obligations that follow them in the same function\n# (assume-after-assert), so what is claimed for such a function is proved under these assumptions.\n"+strings.Join(uniq(unlocked), "\n")+"\n"), 0o644)
 	}
 	sort.Strings(lines)
 	lines = uniq(lines)
